@@ -321,6 +321,12 @@ func (w *subWorld) opCreate() {
 	w.out.Count("create." + cls)
 	if cls == "ok" {
 		w.logLocks(next, ls)
+		if owner >= subBase {
+			// the owner is itself an address of the subaccount range (outside the boundary contract `ExtOK`:
+			// owners are key-holding accounts): transfers "to the owner" then land on a subaccount address
+			w.tainted, w.inexact = true, true
+			w.out.Count("create.owner-is-subaccount-address")
+		}
 	}
 	o := w.emit(false, cls, fmt.Sprintf("C %d %d %s", creator, owner, subLocksArg(ls)))
 	w.outflowCheck(before, "C", -1)
@@ -356,6 +362,11 @@ func (w *subWorld) opTopUp() {
 func (w *subWorld) opWithdraw(owner int) {
 	a, has := w.subOf(owner)
 	before := w.snap()
+	wdBefore := sdkmath.ZeroInt()
+	if has {
+		sm, _ := w.k.GetAccountSummary(w.e.Ctx, w.acct(a))
+		wdBefore = sm.WithdrawnAmount
+	}
 	msg := &subtypes.MsgWithdrawUnlockedBalances{Creator: w.acct(owner).String()}
 	err, p := w.e.Tx(func(ctx sdk.Context) error {
 		_, err := w.srv.WithdrawUnlockedBalances(sdk.WrapSDKContext(ctx), msg)
@@ -365,7 +376,13 @@ func (w *subWorld) opWithdraw(owner int) {
 	w.out.Count("withdraw." + cls)
 	if cls == "ok" && has {
 		g := w.ghost(a)
-		g.released = g.released.Add(before[a].Sub(w.balOf(a)))
+		paid := before[a].Sub(w.balOf(a))
+		if owner >= subBase {
+			// owner == a subaccount address (possibly this one): the bank delta says nothing, use the booked amount
+			sm, _ := w.k.GetAccountSummary(w.e.Ctx, w.acct(a))
+			paid = sm.WithdrawnAmount.Sub(wdBefore)
+		}
+		g.released = g.released.Add(paid)
 		g.nRel++
 	}
 	o := w.emit(false, cls, fmt.Sprintf("W %d", owner))
